@@ -970,6 +970,13 @@ def _exec_dist_goh(case, mon):
     rows = case["theta"] if batch else case["theta"][0]
     theta = torch.tensor(rows, dtype=dtype)
     dist = mon.lib("GumbelOneHotCategorical", PD.GumbelOneHotCategorical, **{case["kind"]: theta})
+    if (V + case["K"] + len(str(rows))) % 3 == 0:
+        # the distribution after Distribution.expand() (to its own batch shape), for half of them after its lazily
+        # computed parameters have been looked at
+        if (V + len(str(rows))) % 2 == 0:
+            _ = dist.logits, dist.probs
+        dist = mon.lib("GumbelOneHotCategorical.expand", dist.expand, dist.batch_shape)
+        mon.cls("goh_expanded")
     vals = _uniform_values(case["K"], case["hostile_uniforms"], case["dtype"])
     pts = torch.tensor(list(itertools.product(vals, repeat=V)), dtype=torch.float64)  # (G, V)
     G = pts.shape[0]
